@@ -19,7 +19,7 @@ open Pithos Pithos.Proto Pithos.Ascii Pithos.VHost
 
 /-- Which variant of the rewrite the tie compares against.
 FLIP to `true` once fixes/C33-vhost-keep-trailing-slash.patch is committed in /repo. -/
-def implRepaired : Bool := false
+def implRepaired : Bool := true
 
 def unhexL (s : String) : List Char := ((unhex s).getD []).map fun b => Char.ofNat b.toNat
 
@@ -135,13 +135,16 @@ def judgeCase (_k : Nat) (lines : List String) : Verdict := Id.run do
         | none => pure ()
         -- judge: both ways must be the same action
         if po != vo then
+          -- A mismatch is one of the two KNOWN kinds only if it is exactly what the model of the
+          -- rewrite as it stands predicts: the model resolves the two spellings differently, each
+          -- observation fits its prediction, and the shape is the known one. Anything else is new.
           let vDecodedEndsSlash := match (parseTarget vRaw) with
             | some u => u.path.length > 1 && u.path.getLast? == some '/'
             | none => false
-          let repairedAgrees := resolveTarget true apiEp vHost vRaw == resolveTarget true apiEp apiEp pRaw
+          let explained := !implRepaired && mP != mV && (fits mP po).isNone && (fits mV vo).isNone
           let sg :=
-            if repairedAgrees && vDecodedEndsSlash then "C33.vhost-drops-trailing-slash"
-            else if repairedAgrees then "C33.vhost-stale-rawpath"
+            if explained && vDecodedEndsSlash then "C33.vhost-drops-trailing-slash"
+            else if explained then "C33.vhost-stale-rawpath"
             else "C33.vhost-path-divergence"
           vio := vio ++ [(sg, s!"op{idx}:bucket={showL b},target={showL vRaw}:path-style={showObs po};vhost={showObs vo}")]
         cur := none
